@@ -1,0 +1,14 @@
+//go:build verif
+
+package at
+
+import (
+	"database/sql/driver"
+
+	"seata.apache.org/seata-go/pkg/datasource/sql/types"
+)
+
+// VerifBuildRecordImages exposes the private row scanner (buildRecordImages / GetScanSlice).
+func VerifBuildRecordImages(rows driver.Rows, meta *types.TableMeta, sqlType types.SQLType) (*types.RecordImage, error) {
+	return (&baseExecutor{}).buildRecordImages(rows, meta, sqlType)
+}
